@@ -49,7 +49,7 @@ def parse_off_data(data):
     for _ in range(nf):
         simplex = data.popleft()
         nvi = int(simplex[0])
-        if nvi==3:
+        if nvi==3 or nvi>4: # triangle or polygon (4 is read as a tetrahedron, see docstring of import_off)
             face = [int(u) for u in simplex[1:nvi+1]]
             output.faces.append(face)
             output.face_corners += [(x,i_f) for x in face]
